@@ -227,6 +227,8 @@ def build(case, cb):
                 rad = np.array(end_sk.radius_point) - cen
                 arc_c = cen + rad / np.linalg.norm(rad) * rng.uniform(2.5, 4)
                 ax = np.cross(plane_n, rad)
+                if start_face:
+                    ax = -ax  # the sketch normal of a start face points into the source: sweep away from it
                 nxt = cb.Elbow.chain(src, rng.uniform(0.4, 1.2), list(arc_c), list(ax), float(np.linalg.norm(rad)) * rng.uniform(0.7, 1.1), start_face)
                 nxt.chop_axial(**kw())
             elif what == "frustum":
